@@ -79,7 +79,17 @@ Verdict(e) ==
   IF qp2 # {} THEN
        LET x == CHOOSE x \in qp2 : TRUE IN
        Viol("renaming the document's prefixes consistently changed a selection", [text |-> e.text, test |-> TestNames[x[2]]])
-  ELSE OKV
+  ELSE \* xq --setns xmlns:e=<uri>: prints exactly the nodes the specification selects under that binding
+       LET bad == { k \in 1..Len(e.xq) :
+                      LET r == e.xq[k] IN
+                      ~( /\ r.code = 0 /\ r.renderable
+                         /\ r.sel = EvalTop(d, Tests(II)[r.q], Bindings[r.b]).v
+                         /\ r.stdout = r.sel_out ) }
+       IN IF bad # {} THEN
+               LET k == CHOOSE k \in bad : TRUE IN
+               Viol("xq --setns does not print the nodes selected under the caller's binding",
+                    [text |-> e.text, test |-> TestNames[e.xq[k].q], binding |-> Bindings[e.xq[k].b][1][2], code |-> e.xq[k].code])
+          ELSE OKV
 
 Init == l = 1
 Next == /\ l <= Len(Rec)
